@@ -660,6 +660,10 @@ PANIC_ALLOWED = {
     ('Receiver::<T>::recv_timeout', 'time-add'): 'deadline overflow only (same surface as checked_add().unwrap())',
     ('Sender::<T>::send_timeout', 'time-add'): 'deadline overflow only (same surface as checked_add().unwrap())',
     ('Sender::<T>::send_option_timeout', 'time-add'): 'deadline overflow only (same surface as checked_add().unwrap())',
+    ('internal::ChannelInternal::<T>::cancel_send_signal', 'index'): 'index-based scan of the wait list, bounded by its loop condition',
+    ('internal::ChannelInternal::<T>::cancel_recv_signal', 'index'): 'index-based scan of the wait list, bounded by its loop condition',
+    ('internal::ChannelInternal::<T>::send_signal_exists', 'index'): 'index-based scan of the wait list, bounded by its loop condition',
+    ('internal::ChannelInternal::<T>::recv_signal_exists', 'index'): 'index-based scan of the wait list, bounded by its loop condition',
     ('backoff::randomize', 'assert:RemainderByZero'): 'dead code: randomize() is not called by the library',
     ('backoff::spin_cond', 'assert:DivisionByZero'): 'SPINS / 2 with the constant divisor 2',
 }
